@@ -341,7 +341,7 @@ class FieldMappingTransformationBase(DetectionItemTransformation):
                         mapped_item.original_value = detection_item.original_value.copy()
                     else:
                         mapped_item.disable_conversion_to_plain()
-                result = SigmaDetection(mapped_items, item_linking=ConditionOR)
+                result = SigmaDetection([*mapped_items], item_linking=ConditionOR)
         if field_match or fieldref_match:  # field name was changed or field reference was mapped
             if self._pipeline is not None and mapping is not None:
                 self._pipeline.field_mappings.add_mapping(field, mapping)
